@@ -5,6 +5,7 @@ import Mathlib.Algebra.Order.Field.Rat
 import TapkeeVerif.Model.LocallyLinear
 import TapkeeVerif.Proofs.LocallyLinear
 import TapkeeVerif.Proofs.LocallyLinearHlle
+import TapkeeVerif.Proofs.LocallyLinearHlleMat
 import TapkeeVerif.Proofs.SpectralLocal
 import Mathlib.LinearAlgebra.Matrix.Notation
 import Mathlib.Tactic.NormNum
@@ -255,6 +256,78 @@ theorem hlleM_ok {N k d : Nat} (nb : Fin N → Fin k → Fin N) (sqrtO : K' → 
   exact ⟨_, rfl⟩
 
 end HlleOk
+
+/-! ## 3b. `hessian_weight_matrix` (HLLE): the assembled matrix -/
+
+section HlleMat
+variable {K : Type} [Field K] [LT K] [DecidableLT K] {N k d : Nat}
+
+/-- For every `d` and ALL neighbour lists, `hessian_weight_matrix` succeeds and assembles
+    `Σ_i S_i (H_i H_iᵀ) S_iᵀ` with `H_i = Yi.rightCols(dp)` of sample `i`. -/
+theorem hlle_M_eq (nb : Fin N → Fin k → Fin N) (sqrtO : K → K) (thr : K) (U : Fin N → Mat k d K) :
+    ∃ M', hlleM nb sqrtO thr U = .ok M' ∧
+      Mat.toM M' = ∑ i, S (nb i) * Mat.toM (hlleProj sqrtO thr (U i)) * (S (nb i))ᵀ :=
+  ⟨_, hlleM_eq_ok (hlle_index_ok d) nb sqrtO thr U, hlleMat_toM nb sqrtO thr U⟩
+
+/-- `Yi.rightCols(dp) * Yi.rightCols(dp)ᵀ`, entry-wise -/
+theorem hlle_proj_eq (sqrtO : K → K) (thr : K) (U : Mat k d K) (a b : Fin k) :
+    hlleProj sqrtO thr U a b = ((hlleH sqrtO thr U).map fun h => h.get a * h.get b).sum :=
+  hlleProj_apply sqrtO thr U a b
+
+/-- the accumulating (`+=`) form the driver runs returns the same result (same error, or the same matrix) -/
+theorem hlleMD_get (nb : Fin N → Fin k → Fin N) (sqrtO : K → K) (thr : K) (U : Fin N → Mat k d K) :
+    (hlleMD nb sqrtO thr U).map DMat.get = hlleM nb sqrtO thr U :=
+  hlleMD_map_get nb sqrtO thr U
+
+/-- Under the Gram–Schmidt contract `hgs` (every column of `H_i` is orthogonal to the constant and to the tangent
+    columns of sample `i`) the constant vector is in the null space of the HLLE matrix. -/
+theorem hlle_const_null (nb : Fin N → Fin k → Fin N) (sqrtO : K → K) (thr : K) (U : Fin N → Mat k d K)
+    (hgs : ∀ i, ∀ h ∈ hlleH sqrtO thr (U i), (∑ a, h.get a = 0) ∧ ∀ c, ∑ a, h.get a * U i a c = 0) :
+    ∀ M', hlleM nb sqrtO thr U = .ok M' → (Mat.toM M').mulVec (fun _ => 1) = 0 := by
+  intro M' hM
+  rw [hlleM_eq_ok (hlle_index_ok d)] at hM
+  cases hM
+  refine hlle_null_of_local nb sqrtO thr U _ fun s q hq => ?_
+  simp only [mul_one]
+  exact (hgs s q hq).1
+
+/- FULL STATEMENT (flat manifold, HLLE): for data that are an affine image of intrinsic coordinates `T` (every
+   neighbourhood of rank exactly `d`, `U i` the top-`d` eigenvectors of the centred local Gram matrix), with an exact
+   square root and no vanishing Gram–Schmidt norm, the null space of `M` is EXACTLY `span{1, T·₁, …, T·_d}`.
+   Proved here (`_partial`): the inclusion `⊇`, with the Gram–Schmidt contract `hgs` and the local-span condition `hflat`
+   as hypotheses.  `gramSchmidt_orthogonal` below derives the orthonormality part of the contract for the as-written
+   modified Gram–Schmidt; the span part (`H_i ⟂ 1, U_i` from orthonormality of the whole sweep, through `colsumNorm`) and
+   the reverse inclusion are not proved. -/
+theorem hlle_affine_on_flat_partial (nb : Fin N → Fin k → Fin N) (sqrtO : K → K) (thr : K) (U : Fin N → Mat k d K)
+    (T t0 : Fin N → Fin d → K) (C : Fin N → Fin d → Fin d → K)
+    (hgs : ∀ i, ∀ h ∈ hlleH sqrtO thr (U i), (∑ a, h.get a = 0) ∧ ∀ c, ∑ a, h.get a * U i a c = 0)
+    (hflat : ∀ i a c, T (nb i a) c = t0 i c + ∑ c', U i a c' * C i c' c)
+    (c : Fin d) :
+    ∀ M', hlleM nb sqrtO thr U = .ok M' → (Mat.toM M').mulVec (fun j => T j c) = 0 := by
+  intro M' hM
+  rw [hlleM_eq_ok (hlle_index_ok d)] at hM
+  cases hM
+  refine hlle_null_of_local nb sqrtO thr U _ fun s q hq => ?_
+  simp only [hflat]
+  exact hlle_local_affine q (U s) (t0 s c) (fun c' => C s c' c) (hgs s q hq).1 (hgs s q hq).2
+
+/-- non-vacuity over ℚ (`k = 4`, `d = 1`): `U = (1,−1,7,−7)ᵀ` (norm 10), product column `(1,1,49,49)ᵀ`, a square root
+    exact on the three norms that occur (4, 100, 2304); the single column of `H` is `(−½,−½,½,½)ᵀ` and meets `hgs`;
+    `T j = 3·U_j + 7` meets `hflat` -/
+example :
+    let U : Fin 4 → Mat 4 1 ℚ := fun _ a _ => ![1, -1, 7, -7] a
+    let sqrtO : ℚ → ℚ := fun x => if x = 4 then 2 else if x = 100 then 10 else if x = 2304 then 48 else 1
+    let nb : Fin 4 → Fin 4 → Fin 4 := fun _ a => a
+    let T : Fin 4 → Fin 1 → ℚ := fun j _ => 3 * ![1, -1, 7, -7] j + 7
+    (∀ i, ∀ h ∈ hlleH sqrtO (1 / 10000) (U i), (∑ a, h.get a = 0) ∧ ∀ c, ∑ a, h.get a * U i a c = 0)
+    ∧ (∀ i, (hlleH sqrtO (1 / 10000) (U i)).map (fun h => (List.finRange 4).map h.get) = [[-1/2, -1/2, 1/2, 1/2]])
+    ∧ (∀ i a c, T (nb i a) c = (fun _ _ => (7 : ℚ)) i c + ∑ c', U i a c' * (fun _ _ _ => (3 : ℚ)) i c' c) := by
+  intro U sqrtO nb T
+  refine ⟨by decide +kernel, by decide +kernel, fun i a c => ?_⟩
+  simp only [T, U, nb, Finset.univ_unique, Finset.sum_singleton]
+  ring
+
+end HlleMat
 
 /-! ## Spectral part (eigensolver contract `GenEigSystem` as hypothesis; `Proofs/SpectralLocal.lean`) -/
 
